@@ -45,6 +45,9 @@ def check(model: Model, run: Run) -> None:
                        "the MRO, one pseudo-entry per incoming message class inside receive); rules R1-R8 are evaluated "
                        "on the extracted (pre-state, effects, outcome, post-state) relation against the documented machine")
     common_coverage(ex, run)
+    # "protocol error closes the session": input that can never be a message is refused on arrival
+    from ..readerrules import lemma_identity_before_completeness
+    lemma_identity_before_completeness(model, run)
     n_state_sites = run.coverage["state_write_sites"]
     run.floor("state write sites", n_state_sites, 8)
     run.floor("paths", run.coverage["paths"], 600)
